@@ -88,6 +88,10 @@ func init() {
 	reg(check{id: "C18", bin: plainCmds, engine: "enum", quickShards: 1, thoroughShards: 16})
 	reg(check{id: "C45", bin: plainRoot, engine: "enum", quickShards: 1, thoroughShards: 16})
 	reg(check{id: "C44", bin: plainRoot, engine: "enum", quickShards: 2, thoroughShards: 16})
+	reg(check{id: "C13", bin: plainRoot, engine: "enum", quickShards: 6, thoroughShards: 16})
+	reg(check{id: "C12", bin: plainRoot, engine: "enum", quickShards: 2, thoroughShards: 16})
+	reg(check{id: "C17", bin: plainRoot, engine: "enum", quickShards: 2, thoroughShards: 16})
+	reg(check{id: "C15", bin: plainRoot, engine: "enum", quickShards: 4, thoroughShards: 16})
 	reg(check{id: "C02", bin: simRoot, engine: "gosim", quickShards: 8, thoroughShards: 16, gomaxprocs: 1})
 	reg(check{id: "C24", bin: simRoot, engine: "gosim", quickShards: 8, thoroughShards: 16, gomaxprocs: 1})
 }
